@@ -52,9 +52,9 @@ Streams(V, T, nd, ne) == [docs : SeqsUpTo(Runs(V, T, ne), nd), bad : BOOLEAN]
 ScenariosFor(args, V, T, nd, ne) ==
   LET o == ParseArgs(args).o IN
   IF o.n \/ o.s
-  THEN {[args |-> args, query |-> "ok", docs |-> [i \in 1..k |-> <<>>], bad |-> b, one |-> r] :
+  THEN {[args |-> args, query |-> "ok", docs |-> [i \in 1..k |-> <<>>], bad |-> b, onull |-> r, oslurp |-> r] :
           k \in {0, nd}, b \in BOOLEAN, r \in Runs(V, T, ne)}
-  ELSE {[args |-> args, query |-> "ok", docs |-> st.docs, bad |-> st.bad, one |-> <<>>] : st \in Streams(V, T, nd, ne)}
+  ELSE {[args |-> args, query |-> "ok", docs |-> st.docs, bad |-> st.bad, onull |-> <<>>, oslurp |-> <<>>] : st \in Streams(V, T, nd, ne)}
 
 InitA == \E fl \in FlagSeqs, ind \in IndentChoices :
            \E s \in ScenariosFor(ArgsOf(fl, ind), ValsA, StoppersA, MaxDocsA, MaxEvA) : InitWith(s)
@@ -81,7 +81,7 @@ FrontArgs == {
   <<[k |-> "short", fl |-> <<"e", "c">>], Pos>>,
   <<[k |-> "short", fl |-> <<"r">>], [k |-> "dd"], Pos>>,
   <<Pos>> }
-FamilyF == {[args |-> a, query |-> q, docs |-> OneDoc, bad |-> b, one |-> <<>>] :
+FamilyF == {[args |-> a, query |-> q, docs |-> OneDoc, bad |-> b, onull |-> <<>>, oslurp |-> <<>>] :
               a \in FrontArgs, q \in {"ok", "parse", "compile"}, b \in BOOLEAN}
 
 InitF == \E s \in FamilyF : InitWith(s)
